@@ -8,6 +8,19 @@ def lit(s):
     return z3.StringVal(s)
 
 
+_REPLACE_ALL = None
+
+
+def replace_all(e, old, new):
+    """SMT-LIB str.replace_all (not exported by the z3 Python API: the declaration is taken from a parsed term); Python's str.replace for a
+    non-empty `old`.  z3 rarely decides it, cvc5 --strings-exp does (contracts using it set prefer_cvc5)"""
+    global _REPLACE_ALL
+    if _REPLACE_ALL is None:
+        f = z3.parse_smt2_string('(declare-const s String)(assert (= (str.replace_all s "a" "b") s))')
+        _REPLACE_ALL = f[0].arg(0).decl()
+    return _REPLACE_ALL(e, old, new)
+
+
 class SStr(Sym):
     def __init__(self, e):
         self.e = e if z3.is_expr(e) else z3.StringVal(e)
@@ -96,6 +109,17 @@ class SStr(Sym):
                     return SSplit1(e, sep)
                 raise Unsupported("str.split without maxsplit=1 on a symbolic string")
             return NativeStub(split, "str.split")
+        if name == "replace":
+            def replace(old, new, count=-1):
+                o, nw = SStr.of(old), SStr.of(new)
+                if o is None or nw is None or not isinstance(count, int):
+                    raise Unsupported("str.replace arguments")
+                if count == 1:
+                    return SStr(z3.Replace(e, o, nw))
+                if count != -1:
+                    raise Unsupported("str.replace with a count other than 1")
+                return SStr(replace_all(e, o, nw))
+            return NativeStub(replace, "str.replace")
         if name == "count":
             raise Unsupported("str.count on a symbolic string")
         raise Unsupported(f"str.{name}")
